@@ -67,6 +67,10 @@ func isCardNumberValid(cardNumber uint32, formats ...types.CardFormat) bool {
 }
 
 func isWiegand26(card uint32) bool {
+	if card > 99999999 {
+		return false
+	}
+
 	s := fmt.Sprintf("%08v", card)
 
 	if facilityCode, err := strconv.Atoi(s[:3]); err != nil {
